@@ -283,19 +283,19 @@ Definition ack_req (sk : skeleton) (ok : bool) (au : auth_state) (r : req) : opt
       | RDb | RNone => (None, au)
       end
   end.
-Fixpoint ack_batch (sk : skeleton) (ok : bool) (au : auth_state) (b : list req) : list (option bool) * auth_state :=
-  match b with
-  | [] => ([], au)
-  | r :: t => let '(a, au1) := ack_req sk ok au r in
-              let '(l, au2) := ack_batch sk ok au1 t in (a :: l, au2)
-  end.
-
 (* ------------------------------------------------------------------ a whole run *)
 (* per request, in submission order: the request, what the caller was told, was its batch committed *)
 Definition item := (req * option bool * bool)%type.
 Definition it_req (x : item) : req := fst (fst x).
 Definition it_ack (x : item) : option bool := snd (fst x).
 Definition it_committed (x : item) : bool := snd x.
+(* the acknowledgement loop: `for msg in buffer`, in batch order *)
+Fixpoint ack_batch (sk : skeleton) (ok : bool) (au : auth_state) (b : list req) : list item * auth_state :=
+  match b with
+  | [] => ([], au)
+  | r :: t => let '(a, au1) := ack_req sk ok au r in
+              let '(l, au2) := ack_batch sk ok au1 t in ((r, a, ok) :: l, au2)
+  end.
 Record run_res := {
   rr_state : wstate;
   rr_items : list item;
@@ -317,10 +317,10 @@ Fixpoint run_batches (sk : skeleton) (sched : schedule) (n : N) (st : wstate) (a
              rr_items := map (fun q => (q, None, c)) b ++ map (fun q => (q, None, false)) (concat rest);
              rr_alive := false; rr_hits := n'; rr_last := last |}
       | Returned ok =>
-          let '(acks, au') := ack_batch sk ok au b in
+          let '(items, au') := ack_batch sk ok au b in
           let r := run_batches sk sched n' st' au' rest in
           {| rr_state := rr_state r;
-             rr_items := map (fun qa => (fst qa, snd qa, ok)) (combine b acks) ++ rr_items r;
+             rr_items := items ++ rr_items r;
              rr_alive := rr_alive r; rr_hits := rr_hits r; rr_last := rr_last r |}
       end
   end.
